@@ -6,3 +6,5 @@ import SSEPyVerif.Model.Bits
 import SSEPyVerif.Driver.BytesD
 import SSEPyVerif.Proofs.Bytes
 import SSEPyVerif.Props.C17
+import SSEPyVerif.Proofs.Bits
+import SSEPyVerif.Props.C18
